@@ -4,6 +4,7 @@
 // queue give the arrival / departure logs that are compared with the recurrence.
 #include "core.hpp"
 #include "net.hpp"
+#include "export.hpp"
 #include "models/queue_model.hpp"
 #include <functional>
 
@@ -78,6 +79,15 @@ struct QueueEngine : Engine
 
 	Plan generate(std::string const&, Rng& rng, int tier) override
 	{
+		if (rng.chance(0.25))
+		{
+			// mixed real traffic: a TCP/UDP program of the tcp engine (payload, ACKs, SYN, SYN-ACK, EOF, retransmissions,
+			// datagrams) over its multi-hop routes; every queue hop of that run is checked
+			Engine* t = engine_by_name("tcp");
+			Plan p = t->generate("C19", rng, tier);
+			p.cfg["real_traffic"] = 1;
+			return p;
+		}
 		Plan p;
 		int const nh = int(rng.range(1, 3));
 		p.cfg["hn"] = nh;
@@ -136,8 +146,52 @@ struct QueueEngine : Engine
 		return p;
 	}
 
+	void run_real(Plan const& plan, Ctx& ctx)
+	{
+		bool const c09 = plan.prop == "C09", c10 = plan.prop == "C10";
+		std::vector<QueueExport> queues;
+		Plan sp = plan;
+		sp.prop = "C05"; // the tcp engine's stream checks; its verdict is not ours
+		sp.cfg.erase("real_traffic");
+		sp.cfg["trace_packets"] = 0;
+		Ctx sub;
+		g_queue_export = &queues;
+		try { engine_by_name("tcp")->run(sp, sub); } catch (...) { g_queue_export = nullptr; throw; }
+		g_queue_export = nullptr;
+		ctx.sim_ns = sub.sim_ns;
+		ctx.handlers = sub.handlers;
+		ctx.hit("real_traffic_runs");
+		bool const quiescent = !sub.cnt.count("step_cap_reached") && !sub.cnt.count("livelock_watchdog");
+		for (auto const& q : queues)
+		{
+			std::vector<model::QPkt> a, d, n;
+			for (auto const& r : q.arrivals) a.push_back(to_q(r));
+			for (auto const& r : q.departures) d.push_back(to_q(r));
+			std::map<uint64_t, bool> arrival_gseq;
+			for (auto const& r : q.arrivals) arrival_gseq[r.gseq] = true;
+			// the probe in front of the queue is the outermost wrapper: its record of a drop by
+			// this queue directly follows the arrival
+			for (auto const& dn : q.dropnotes)
+				if (arrival_gseq.count(dn.pkt.gseq - 1)) { model::QPkt x = to_q(dn.pkt); x.has_drop_fun = false; n.push_back(x); }
+			// the wrapper consumed the packet's own callback flag: what the model needs is whether the arrival had one
+			model::QParams qp;
+			qp.bw = q.spec.bw; qp.lat_ns = q.spec.lat_ns; qp.cap = q.spec.cap;
+			model::QVerdict v = model::check_queue(qp, a, d, n, quiescent, c09, c10, q.label);
+			ctx.hit("real_queue_hops");
+			ctx.hit("tail_drops", v.drops);
+			ctx.hit("accepted", v.accepted);
+			ctx.hit("backlogged_arrivals", v.backlogged_arrivals);
+			ctx.hit("undroppable_over_capacity", v.undroppable_over_cap);
+			if (!v.ok) ctx.fail(v.cls, v.detail + " [real traffic]");
+			if (v.drops > 0 && v.accepted > 1) ctx.nontrivial = true;
+			if (v.backlogged_arrivals > 0) ctx.nontrivial = true;
+			ctx.tr.rec("queue", {int64_t(a.size()), int64_t(d.size()), int64_t(n.size())}, {int64_t(qp.bw), int64_t(qp.lat_ns), int64_t(qp.cap)});
+		}
+	}
+
 	void run(Plan const& plan, Ctx& ctx) override
 	{
+		if (plan.c("real_traffic")) { run_real(plan, ctx); return; }
 		bool const c09 = plan.prop == "C09", c10 = plan.prop == "C10";
 		Net net;
 		net.ctx = &ctx;
@@ -266,6 +320,12 @@ struct QueueEngine : Engine
 	std::vector<Plan> simplify(Plan const& p) override
 	{
 		std::vector<Plan> out;
+		if (p.c("real_traffic"))
+		{
+			Plan sp = p; sp.prop = "C05";
+			for (Plan c : engine_by_name("tcp")->simplify(sp)) { c.prop = p.prop; c.engine = p.engine; c.cfg["real_traffic"] = 1; out.push_back(c); }
+			return out;
+		}
 		int64_t const nh = p.c("hn", 1);
 		if (nh > 1) { Plan c = p; c.cfg["hn"] = nh - 1; out.push_back(c); }
 		for (int k = 0; k < nh; ++k)
@@ -293,6 +353,8 @@ struct QueueEngine : Engine
 			"overheads 20/28/40, as singles, same-instant bursts, sustained overload and arrivals placed exactly on predicted departures; ";
 		if (prop == "C09") s += "per queue the departure log is compared with leave=max(prev, arrive+latency)+floor(size*1e9/bw) (+-1 ns) and FIFO order. ";
 		else s += "per queue every arrival is matched to exactly one departure or one drop report using a shadow byte account. ";
+		s += "a quarter of the runs instead take a TCP/UDP program of the tcp engine (payload, ACKs, SYN, SYN-ACK, EOF, retransmissions, datagrams over multi-hop routes with "
+			"finite queues and fault sinks) and apply the same per-queue oracle to every queue hop of that run. ";
 		return s + "distinct = distinct shape hash of the packet/drop event sequence; non-trivial = a queue had a backlog or tail-dropped while also forwarding";
 	}
 	int64_t budget(std::string const&, int tier) const override { return tier ? 600000 : 20000; }
